@@ -12,7 +12,7 @@ from .explorer import EX, Unsupported, explore_iter
 
 PID = "C12"
 _G = {}
-KINDS = ("valid", "valid2", "fast_first", "unknown_pgn", "malformed", "blank")
+KINDS = ("valid", "valid2", "fast_first", "unknown_pgn", "malformed", "rejected", "blank")
 CBK = ("ok", "raises", "slow")
 
 
@@ -27,6 +27,11 @@ def packet(N, client, kind, src):
     if kind in ("valid", "valid2"):
         m = dec._decode(127250 if kind == "valid" else 127251, 2, src, 255, ts,
                         (bytes([src, 0x10, 0x27, 0xFF, 0x7F, 0xFF, 0x7F, 0xFD]) if kind == "valid" else bytes([src, 0x10, 0x27, 0, 0, 0xFF, 0xFF, 0xFF]))[::-1], b"")
+        return _wire(N, enc, client, m)
+    if kind == "rejected":
+        # well-formed packet of a known PGN whose heading is outside the database range: the decoder raises for it
+        m = dec._decode(127250, 2, src, 255, ts, bytes([src, 0x10, 0x27, 0xFF, 0x7F, 0xFF, 0x7F, 0xFD])[::-1], b"")
+        m.get_field_by_id("heading").value = 6.5534
         return _wire(N, enc, client, m)
     if kind == "fast_first":
         pay = bytes([1, 0, 5, 0x64] + [0xFF] * 7)
@@ -188,7 +193,7 @@ def _worker(job):
             seg = (("whole",), ("bytewise",), ("chunk7",), ("chunk21",))[ex.choose(4)]
             cb = (CBK[ex.choose(3)], CBK[ex.choose(3)])
         else:
-            kinds = (("valid", "valid2", "valid"), ("malformed", "valid", "unknown_pgn", "valid2"), ("fast_first", "valid", "valid2"))[ex.choose(3)]
+            kinds = (("valid", "valid2", "valid"), ("malformed", "valid", "unknown_pgn", "valid2"), ("fast_first", "valid", "valid2"), ("valid", "rejected", "valid2"))[ex.choose(4)]
             total = len(b"".join(packet(N, client, k, 10 + i) for i, k in enumerate(kinds)))
             a = 1 + ex.choose(total - 1)
             if part == "cut1":
